@@ -155,7 +155,12 @@ pub(super) fn animate<T: Component>(
         // from the `timeline` struct anymore after the `update`.
         let timeline_delay = timeline.delay();
         let timeline_duration = timeline.duration();
-        if animator.state == AnimationState::Playing {
+        // Also evaluate on the frame in which the animation is about to end, even if it was not
+        // playing yet (e.g. a long frame skipped the delay and the whole animation), so that the
+        // target always lands on the final values.
+        let will_end =
+            position_secs >= timeline_duration && animator.state != AnimationState::Ended;
+        if animator.state == AnimationState::Playing || will_end {
             if let Ok(mut target) = targets.get_mut(entity) {
                 timeline.update(&mut target, position_secs);
             }
